@@ -72,8 +72,63 @@ type embedded struct {
 	N int64
 }
 
+type keyName string
+type octet byte
+type octets []byte
+type smallInt int8
+
+type hidden struct {
+	B int    `ion:"b"`
+	S string `ion:"symbols"`
+}
+
+// embedsHidden embeds a nil pointer to an unexported struct type whose fields are promoted.
+type embedsHidden struct {
+	*hidden
+	A int `ion:"a"`
+}
+
+type hiddenAnn struct {
+	Ann []string `ion:",annotations"`
+}
+
+// annotatedViaEmbedded is the two-field annotation wrapper with the annotations field reached through an embedded pointer.
+type annotatedViaEmbedded struct {
+	*hiddenAnn
+	Value int
+}
+
+type holder struct {
+	P  **tagged            `ion:"a"`
+	M  map[keyName]*tagged `ion:"e"`
+	L  []*embedsHidden     `ion:"f"`
+	Ar [2]embedsHidden     `ion:"imports"`
+	I  interface{}         `ion:"name"`
+	O  octets              `ion:"c"`
+	N  smallInt            `ion:"max_id"`
+	F  func()              `ion:"version"`
+	C  chan int            `ion:"symbols"`
+}
+
+// TargetCount is the size of the target zoo.
+var TargetCount = len(Targets())
+
 // Targets builds a fresh zoo of Unmarshal targets.
 func Targets() []interface{} {
+	return append(moreTargets(), baseTargets()...)
+}
+
+func moreTargets() []interface{} {
+	return []interface{}{
+		new(map[keyName]int), new(map[keyName]interface{}), new(map[int]string), new(map[smallInt]int), new(map[string]*tagged),
+		new([4]octet), new(octets), new([]octet), new(smallInt), new(keyName), new([]keyName),
+		new(embedsHidden), new(*embedsHidden), new([]embedsHidden), new(map[string]embedsHidden), new([1]*embedsHidden),
+		new(annotatedViaEmbedded), new(holder), new([]*tagged), new(*[]int), new([2]tagged), new(***int),
+		new(func()), new(chan int), new(complex128), new(struct{}), new([0]int), new(map[string][2]byte),
+	}
+}
+
+func baseTargets() []interface{} {
 	return []interface{}{
 		new(bool), new(int), new(int8), new(int16), new(int32), new(int64), new(uint), new(uint8), new(uint16), new(uint32), new(uint64),
 		new(float32), new(float64), new(string), new([]byte), new([4]byte), new([]int), new([]string), new([]interface{}), new([3]int),
